@@ -43,6 +43,7 @@ func lastOfType(n *sim.Node, typ int) *sim.SentMsg {
 func TestC08OpeningMessageMatchesTransaction(t *testing.T) {
 	col := stats.Get("C08.message")
 	rapid.Check(t, func(t *rapid.T) {
+		sim.CaseStart(t)
 		w := sim.NewWorld()
 		defer w.Close()
 		seed := rapid.StringMatching(`[a-z]{6}`).Draw(t, "seed")
